@@ -64,14 +64,22 @@ func c17Run(c C17Case) (out c17Outcome, hung bool) {
 func c17Check(c C17Case) (r evid.Result) {
 	r.Class(true, "origin="+c.Origin)
 	r.Class(c.Params.Instant(), "instant")
-	expr, perr := logql.Parse(string(c.Query), logql.ParseOptions{})
-	r.Class(perr == nil, "parsed")
+	// Evaluation first, under the watchdog: it includes parsing, so a parser that loops is seen
+	// here and not by the bare Parse call below.
 	out, hung := c17Run(c)
 	q := trunc(string(c.Query))
 	if hung {
 		r.Violation = evid.Viol("C17/hang", "evaluation of %q did not return within %v (params %+v, %d records)", q, c17Watchdog, c.Params, len(c.Recs))
 		return r
 	}
+	var (
+		expr logql.Expr
+		perr error
+	)
+	if out.panic == nil {
+		expr, perr = logql.Parse(string(c.Query), logql.ParseOptions{})
+	}
+	r.Class(perr == nil, "parsed")
 	if out.panic != nil {
 		r.Violation = evid.Viol("C17/panic", "evaluation of %q panicked: %v (params %+v, %d records)", q, out.panic, c.Params, len(c.Recs))
 		return r
@@ -258,6 +266,11 @@ func c17Gen(t *rapid.T) C17Case {
 	default:
 		c.Origin = "grammar"
 		c.Query = gen.BS(gen.Print(datagen.GenGrammarQuery(t, true), layout))
+	}
+	// A comment that runs to the end of the text (no line break after it), or other endings a
+	// scanner may not expect.
+	if c.Origin != "bytes" && rapid.IntRange(0, 7).Draw(t, "odd-ending") == 0 {
+		c.Query += gen.BS(rapid.SampledFrom([]string{" # the end", "#", " #\r", "\n# x", " # a\n# b", "\r\n", "\t", " \x00"}).Draw(t, "ending"))
 	}
 	return c
 }
